@@ -635,6 +635,39 @@ impl Prop for NotifProp {
                 "val_delay_ms": *rng.pick(&[0u64, 0, 20, 1500, 6000]),
             }));
         }
+        let mut two_conn = false;
+        {
+            // two overlapping connections (both applications dial each other by address at the same
+            // instant), a stream opened and used over them, then one or both of the connections
+            // between the two nodes are lost, with or without a stall of the peer (independent
+            // stream of the seed)
+            let mut r = Rng::fork(seed, "notif-two-connections");
+            if r.chance(1, 8) {
+                two_conn = true;
+                let (a, b) = if r.chance(1, 2) { (1u64, 2u64) } else { (2, 1) };
+                ops.push(json!({"at_ms": 20, "op": "connect", "node": a, "to": b}));
+                ops.push(json!({"at_ms": 20 + r.below(3), "op": "connect", "node": b, "to": a}));
+                let t0 = 600 + r.below(600);
+                ops.push(json!({"at_ms": t0, "op": "open", "node": a, "to": b}));
+                ops.push(json!({"at_ms": t0 + 400, "op": "send", "node": a, "to": b, "sync": r.chance(1, 2), "count": r.range(1, 20), "size": r.range(HDR as u64, 40)}));
+                let t1 = t0 + 500 + r.below(500);
+                if r.chance(1, 2) {
+                    faults.push(json!({"at_ms": t1, "kind": "freeze", "node": b, "heal_after_ms": *r.pick(&[500u64, 3_000, 20_000])}));
+                }
+                ops.push(json!({"at_ms": t1 + 20, "op": "send", "node": a, "to": b, "sync": r.chance(1, 2), "count": r.range(1, 20), "size": r.range(HDR as u64, 40)}));
+                let t2 = t1 + 40 + r.below(300);
+                faults.push(json!({"at_ms": t2, "kind": "reset_pair", "a": a, "b": b, "k": r.below(2)}));
+                match r.below(3) {
+                    0 => faults.push(json!({"at_ms": t2 + r.below(3), "kind": "reset_pair", "a": a, "b": b, "k": 0})),
+                    1 => faults.push(json!({"at_ms": t2 + 100 + r.below(2_000), "kind": "reset_pair", "a": a, "b": b, "k": 0})),
+                    _ => {}
+                }
+                // and the stream is asked for again afterwards
+                ops.push(json!({"at_ms": t2 + 300 + r.below(3_000), "op": "open", "node": if r.chance(1, 2) { a } else { b }, "to": if r.chance(1, 2) { b } else { a }}));
+                ops.sort_by_key(|o| o["at_ms"].as_u64().unwrap_or(0));
+                faults.sort_by_key(|f| f["at_ms"].as_u64().unwrap_or(0));
+            }
+        }
         {
             // persistent users (independent stream of the seed): a quarter of the nodes ask again
             // at once after rejecting a peer's inbound stream and after an open failure
@@ -676,6 +709,11 @@ impl Prop for NotifProp {
                 Value::Null
             }
         };
+        let mut node_knobs = gen_node_knobs(&mut rng);
+        if two_conn && node_knobs["keep_alive_ms"].as_u64().unwrap_or(5000) < 5000 {
+            // the two connections must still be there when the stream is opened
+            node_knobs["keep_alive_ms"] = json!(5000);
+        }
         json!({
             "property": self.id,
             "seed": seed,
@@ -683,7 +721,7 @@ impl Prop for NotifProp {
             "rogue": rogue,
             "sched": sched,
             "net": net,
-            "node_knobs": gen_node_knobs(&mut rng),
+            "node_knobs": node_knobs,
             "max_size": max_size,
             "per_node": per_node,
             "ops": ops,
